@@ -82,6 +82,9 @@ structure Est where
   out : Bool
   muxDial : Bool
   muxK : Nat
+  /-- `start_close` was called and the connection task is still closing the muxer (only the
+  `closeHold`/`release` transitions of `XOp` use it; a closing connection is still in the table) -/
+  closing : Bool := false
   deriving DecidableEq, Repr, Inhabited
 
 structure State where
@@ -465,15 +468,28 @@ end Swarm
 
 namespace Swarm
 
-/-- operations extended by the `race` transition (kept separate from `Op` so that models composed
-with `Op` are unaffected) -/
+/-- `Swarm::close_connection(c)` while the muxer's `poll_close` stays pending: the connection is
+marked closing, nothing is reported yet, it stays in the table and keeps being counted -/
+def closeHold (s : State) (c : Nat) : State :=
+  { s with est := s.est.map (fun e => if e.id = c then { e with closing := true } else e) }
+
+/-- the muxer of a closing connection finishes `poll_close`: the task reports `Closed` -/
+def release (s : State) (c : Nat) : State × List Ev :=
+  if s.est.any (fun e => e.id == c && e.closing) then closeConn s c true else (s, [])
+
+/-- operations extended by the `race` and `closeHold`/`release` transitions (kept separate from `Op`
+so that models composed with `Op` are unaffected) -/
 inductive XOp where
   | base (o : Op)
   | race (k p : Nat) (deny : Bool) (dp : Nat) (order aborts : List Nat)
+  | closeHold (c : Nat)
+  | release (c : Nat)
   deriving Repr, Inhabited
 
 def xstep (s : State) : XOp → State × Res × List Ev
   | .base o => step s o
+  | .closeHold c => (closeHold s c, .bool (s.est.any (·.id == c)), [])
+  | .release c => let r := release s c; (r.1, .none, r.2)
   | .race k p d dp o a =>
     match race s k p d dp o a with
     | some (s', ev) => (s', .okErr (s.isConnected dp), ev)
